@@ -35,6 +35,10 @@ def run(repo, run, tier):
     retry_step(repo, run, rule_id="C03.10", strict=True)
     target_as_given(repo, run, m)
     committed_row_is_written(repo, run, m)
+    # 'ends at the target', also through the facade and for decreasing spans: the step-clipping callback of solve_ivp keeps the SIGN of the step (a signed clip into
+    # [min_step, max_step] turns a negative step into 0, and integrate()'s `dt != 0` guard then ends the run one step after t0, reporting success)
+    from .c18 import clipping
+    clipping(repo, run, repo.get(DS, "solve_ivp"), rule_id="C03.13")
 
 
 # ------------------------------------------------------------------------------------------------
